@@ -14,7 +14,7 @@ for d in seeded/*/; do
   (cd "$S" && git apply --whitespace=nowarn "$OLDPWD/$d/patch.diff") || { echo "$id patch failed" >> $OUT; rm -rf "$S"; continue; }
   for p in $PROPS; do
     YV_SRC="$S" ./check $p $TIER > "$S/o.log" 2>&1; rc=$?
-    mech=$(grep -E "^  mech=" "$S/o.log" | sed 's/ variant=.*//' | sort | uniq -c | sort -rn | head -2 | tr '\n' ';')
+    mech=$(grep -aE "^  mech=" "$S/o.log" | sed 's/ variant=.*//' | sort | uniq -c | sort -rn | head -2 | tr '\n' ';')
     printf "%s\t%s\t%s\t%s\n" "$id" "$p" "$rc" "$mech" >> $OUT
   done
   rm -rf "$S"
